@@ -113,6 +113,9 @@ def expect(kind, prop, value):
             int(v)
         except ValueError:
             return (REFUSE,)
+        if "_" in v or not v.isascii():
+            # numbers only for Python's int(): digit groups joined by underscores, digits of other scripts
+            return (REFUSE,)
         return (UNJUDGED, "non-canonical integer spelling")
     if prop == "encoding":
         try:
